@@ -253,11 +253,24 @@ fn cli_path(u: &UriSpec) -> String {
   }
 }
 
+/// percent-encode a path the way editors do when they build a file: URI
+fn pct(path: &str) -> String {
+  let mut o = String::new();
+  for b in path.bytes() {
+    if b.is_ascii_alphanumeric() || matches!(b, b'-' | b'.' | b'_' | b'~' | b'/') {
+      o.push(b as char);
+    } else {
+      o.push_str(&format!("%{b:02X}"));
+    }
+  }
+  o
+}
+
 fn uri_of(u: &UriSpec) -> String {
   if u.inside {
-    format!("file://{}/{}", root_dir().display(), u.rel)
+    format!("file://{}/{}", root_dir().display(), pct(&u.rel))
   } else {
-    format!("file://{}/{}", outside_dir().display(), u.rel)
+    format!("file://{}/{}", outside_dir().display(), pct(&u.rel))
   }
 }
 
@@ -911,7 +924,7 @@ pub fn gen_world(seed: u64) -> LspWorld {
       let x = r.pick(LSP_LANGS);
       (x.0.to_string(), x.1.to_string())
     };
-    let dir = *r.pick(&["", "src/", "src/deep/", "vendor/"]);
+    let dir = *r.pick(&["", "src/", "src/deep/", "vendor/", "gen code/", "géné/", "src/gen code/"]);
     let _ = lang;
     uris.push(UriSpec { rel: format!("{dir}doc{i}.{ext}"), inside: !r.chance(0.12) });
   }
